@@ -201,6 +201,7 @@ func main() {
 		replayAll(cases, 0, 1)
 	}
 	run.Traces(int64(len(cases)))
+	grafts(tier)
 	sizeSweep(tier)
 	concurrent(tier)
 	run.Exhaustive = true
